@@ -165,6 +165,40 @@ macro_rules! muldiv_lane {
             kani::cover!(true);
         }
     };
+    ($name:ident, $t:expr, $mask:expr, $op:expr, $method:ident, wide) => {
+        muldiv_lane!($name, $t, $mask, $op, $method, [1usize, 2, 6, 7, 0]);
+    };
+    ($name:ident, $t:expr, $mask:expr, $op:expr, $method:ident, widemul) => {
+        // multiplication by -1 / MAX needs all partial products: only {1, 2, 3, MIN, 0} symbolically
+        muldiv_lane!($name, $t, $mask, $op, $method, [1usize, 2, 3, 6, 0]);
+    };
+    ($name:ident, $t:expr, $mask:expr, $op:expr, $method:ident, [$($idx:expr),*]) => {
+        // lanes of 32/64 bits: symbolic lhs (incl. junk above the address mask) against rhs in {1, 2, MIN, -1}
+        // (circuits that stay small), plus the full 10x10 grid of boundary constants evaluated concretely.
+        #[kani::proof]
+        #[kani::unwind(12)]
+        fn $name() {
+            let (t, mask) = ($t, $mask);
+            let junk = if t == T::Generic { !mask & 0xa5a5_0000_0000_0000 } else { 0 };
+            for i in [$($idx),*] {
+                let c = V::new(t, lane_consts(t, mask, i) | junk);
+                let x = V::new(t, kani::any());
+                agree(x.to_gimli().$method(c.to_gimli(), mask), binop($op, x, c, mask), mask);
+            }
+            let mut i = 0;
+            while i < 10 {
+                let mut j = 0;
+                while j < 10 {
+                    let a = V::new(t, lane_consts(t, mask, i) | junk);
+                    let b = V::new(t, lane_consts(t, mask, j) | junk);
+                    agree(a.to_gimli().$method(b.to_gimli(), mask), binop($op, a, b, mask), mask);
+                    j += 1;
+                }
+                i += 1;
+            }
+            kani::cover!(true);
+        }
+    };
     ($name:ident, $t:expr, $mask:expr, $op:expr, $method:ident, lconsts) => {
         // every boundary constant as lhs, symbolic rhs
         #[kani::proof]
@@ -189,24 +223,23 @@ macro_rules! muldiv_all {
 }
 muldiv_all!(Op::Mul, mul,
     c07_q_mul_g1: T::Generic, 0xff, full; c07_q_mul_i8: T::I8, !0, full; c07_q_mul_u8: T::U8, !0, full;
-    c07_q_mul_g2: T::Generic, 0xffff, consts; c07_q_mul_g4: T::Generic, 0xffff_ffff, consts; c07_q_mul_g8: T::Generic, !0, consts;
-    c07_t_mul_i16: T::I16, !0, consts; c07_t_mul_u16: T::U16, !0, consts; c07_t_mul_i32: T::I32, !0, consts;
-    c07_t_mul_u32: T::U32, !0, consts; c07_q_mul_i64: T::I64, !0, consts; c07_t_mul_u64: T::U64, !0, consts;
+    c07_t_mul_g2: T::Generic, 0xffff, consts; c07_q_mul_g4: T::Generic, 0xffff_ffff, widemul; c07_q_mul_g8: T::Generic, !0, widemul;
+    c07_t_mul_i16: T::I16, !0, consts; c07_t_mul_u16: T::U16, !0, consts; c07_t_mul_i32: T::I32, !0, widemul;
+    c07_t_mul_u32: T::U32, !0, widemul; c07_q_mul_i64: T::I64, !0, widemul; c07_t_mul_u64: T::U64, !0, widemul;
 );
 muldiv_all!(Op::Div, div,
     c07_q_div_g1: T::Generic, 0xff, full; c07_q_div_i8: T::I8, !0, full; c07_q_div_u8: T::U8, !0, full;
-    c07_q_div_g2: T::Generic, 0xffff, consts; c07_q_div_g4: T::Generic, 0xffff_ffff, consts; c07_q_div_g8: T::Generic, !0, consts;
-    c07_t_div_i16: T::I16, !0, consts; c07_t_div_u16: T::U16, !0, consts; c07_t_div_i32: T::I32, !0, consts;
-    c07_t_div_u32: T::U32, !0, consts; c07_q_div_i64: T::I64, !0, consts; c07_t_div_u64: T::U64, !0, consts;
+    c07_t_div_g2: T::Generic, 0xffff, consts; c07_q_div_g4: T::Generic, 0xffff_ffff, wide; c07_q_div_g8: T::Generic, !0, wide;
+    c07_t_div_i16: T::I16, !0, consts; c07_t_div_u16: T::U16, !0, consts; c07_t_div_i32: T::I32, !0, wide;
+    c07_t_div_u32: T::U32, !0, wide; c07_q_div_i64: T::I64, !0, wide; c07_t_div_u64: T::U64, !0, wide;
 );
 muldiv_all!(Op::Rem, rem,
     c07_q_rem_g1: T::Generic, 0xff, full; c07_q_rem_i8: T::I8, !0, full; c07_q_rem_u8: T::U8, !0, full;
-    c07_q_rem_g2: T::Generic, 0xffff, consts; c07_q_rem_g4: T::Generic, 0xffff_ffff, consts; c07_q_rem_g8: T::Generic, !0, consts;
-    c07_t_rem_i16: T::I16, !0, consts; c07_t_rem_u16: T::U16, !0, consts; c07_t_rem_i32: T::I32, !0, consts;
-    c07_t_rem_u32: T::U32, !0, consts; c07_q_rem_i64: T::I64, !0, consts; c07_t_rem_u64: T::U64, !0, consts;
+    c07_t_rem_g2: T::Generic, 0xffff, consts; c07_q_rem_g4: T::Generic, 0xffff_ffff, wide; c07_q_rem_g8: T::Generic, !0, wide;
+    c07_t_rem_i16: T::I16, !0, consts; c07_t_rem_u16: T::U16, !0, consts; c07_t_rem_i32: T::I32, !0, wide;
+    c07_t_rem_u32: T::U32, !0, wide; c07_q_rem_i64: T::I64, !0, wide; c07_t_rem_u64: T::U64, !0, wide;
 );
 
-muldiv_all!(Op::Div, div, c07_t_probe_ldiv_g8: T::Generic, !0, lconsts; c07_t_probe_ldiv_g4: T::Generic, 0xffff_ffff, lconsts;);
 // mismatched operand types for mul/div/rem are errors (every pair, symbolic)
 #[kani::proof]
 fn c07_q_muldivrem_mismatch() {
@@ -221,4 +254,61 @@ fn c07_q_muldivrem_mismatch() {
     assert!(a.add(b, mask).is_err());
     assert!(a.eq(b, mask).is_err());
     kani::cover!(ta == T::F32 && tb == T::Generic);
+}
+
+// ------------------------------------------------------------------------------------------------
+// (b) Operation::parse: one harness per opcode byte (generated in gen/c07_gen.rs); 19 symbolic operand
+//     bytes, byte order / version / format / address size symbolic; oracle = mop::model_parse.
+// ------------------------------------------------------------------------------------------------
+use crate::mop::model_parse;
+use gimli::{Encoding, EndianSlice, Format, Operation, Reader};
+
+pub fn any_encoding() -> Encoding {
+    let v: u16 = kani::any();
+    kani::assume(v >= 2 && v <= 5);
+    let k: u8 = kani::any();
+    kani::assume(k < 4);
+    Encoding { format: if kani::any() { Format::Dwarf64 } else { Format::Dwarf32 }, version: v, address_size: 1u8 << k }
+}
+
+fn same_view<E: gimli::Endianity>(a: EndianSlice<'_, E>, b: EndianSlice<'_, E>) -> bool {
+    a.slice().as_ptr() == b.slice().as_ptr() && a.len() == b.len()
+}
+
+pub fn op_same<'a, E: gimli::Endianity>(g: Operation<EndianSlice<'a, E>>, w: Operation<EndianSlice<'a, E>>) -> bool {
+    match (g, w) {
+        (Operation::ImplicitValue { data: a }, Operation::ImplicitValue { data: b }) => same_view(a, b),
+        (Operation::EntryValue { expression: a }, Operation::EntryValue { expression: b }) => same_view(a, b),
+        (Operation::TypedLiteral { base_type: ta, value: a }, Operation::TypedLiteral { base_type: tb, value: b }) => ta == tb && same_view(a, b),
+        (Operation::ImplicitValue { .. }, _) | (Operation::EntryValue { .. }, _) | (Operation::TypedLiteral { .. }, _) => false,
+        (_, Operation::ImplicitValue { .. }) | (_, Operation::EntryValue { .. }) | (_, Operation::TypedLiteral { .. }) => false,
+        (g, w) => g == w,
+    }
+}
+
+pub fn check_op_parse(opcode: u8, twin: bool) {
+    let mut buf: [u8; 20] = kani::any();
+    buf[0] = opcode;
+    let e = any_endian();
+    let enc = any_encoding();
+    let mut r = EndianSlice::new(&buf[..], e);
+    let got = Operation::parse(&mut r, enc);
+    let want = model_parse(&buf[..], e, enc);
+    match (got, want) {
+        (Ok(g), Some((w, n))) => {
+            assert!(op_same(g, w), "decoded operation differs from the standard's");
+            assert!(r.len() == 20 - n, "bytes consumed");
+            if twin {
+                assert!(n == 21, "twin");
+            }
+        }
+        (Err(_), None) => {
+            if twin {
+                assert!(false, "twin");
+            }
+        }
+        (Ok(_), None) => assert!(false, "accepted an operation the standard rejects"),
+        (Err(_), Some(_)) => assert!(false, "rejected a well-formed operation"),
+    }
+    kani::cover!(true);
 }
